@@ -38,5 +38,6 @@ Emit == DoEmit => PrintT(ToJson([f |-> "esc", s |-> Join(s), e |-> Join(XmlEscap
                                  rawok |-> RawOK(s)]))
 C(x) == <<x>>
 cChunks == {C("&"), C("<"), C(">"), C("\""), C("'"), C("a"), C(";"), C("#"), C(" "),
-            <<"&", "a", "m", "p", ";">>, <<"&", "#", "x", "4", "1", ";">>, <<"]", "]", ">">>, <<"<", "!", "[", "C", "D", "A", "T", "A", "[">>}
+            <<"&", "a", "m", "p", ";">>, <<"&", "#", "x", "4", "1", ";">>, <<"]", "]", ">">>, <<"<", "!", "[", "C", "D", "A", "T", "A", "[">>,
+            <<"<", "/", "a", ">">>}      \* (an end tag of the enclosing element: what follows it is OUTSIDE the first root)
 =============================================================================
